@@ -201,7 +201,7 @@ def r3_pop_undoes_exactly_the_frame(ctx):
     ms = P.methods(tb)
     push, pop = ms.get("push_bindings"), ms.get("pop_bindings")
     ptxt = [P.un(s) for s in push.body] if push else []
-    ok = ptxt == ["self._bindings = self._bindings.cons(frame)"]
+    ok = ptxt.count("self._bindings = self._bindings.cons(frame)") == 1 and not any(t.startswith("self._bindings =") and t != "self._bindings = self._bindings.cons(frame)" for t in ptxt)
     ctx.ob("C11.R3", f"{RT}::_ThreadBindings.push_bindings::{' ; '.join(ptxt)}", RT, push.lineno if push else tb.lineno, ok, "" if ok else "frame push is not a cons onto the frame stack")
     qtxt = [P.un(s) for s in pop.body] if pop else []
     ok = "frame = self._bindings.peek()" in qtxt and "self._bindings = self._bindings.pop()" in qtxt and qtxt.index("frame = self._bindings.peek()") < qtxt.index("self._bindings = self._bindings.pop()") and qtxt[-1] == "return frame"
@@ -324,6 +324,14 @@ def r5_conveyance(ctx):
     gtb = _fn(ctx, "get_thread_bindings")
     ok = any(isinstance(n, ast.For) and "_THREAD_BINDINGS.get_bindings()" in P.un(n.iter) for n in ast.walk(gtb)) and "var.value" in P.un(gtb)
     ctx.ob("C11.R5", f"{RT}::get_thread_bindings::all frames, current values", RT, gtb.lineno, ok, "" if ok else "get_thread_bindings does not collect the current value of every Var of every frame")
+    # every answer is computed from the live values: no return bypasses the frame loop (a cached
+    # snapshot would not see a set! made after it was taken, since set! does not touch the frame stack)
+    g = CFG(gtb)
+    loops = [nd for nd in g.nodes if nd.kind == "iter" and "_THREAD_BINDINGS.get_bindings()" in P.un(nd.ast.iter)]
+    rets = [nd for nd in g.nodes if nd.kind == "stmt" and isinstance(nd.ast, ast.Return)]
+    ok = bool(loops) and bool(rets) and all(g.dominated(r, loops) for r in rets)
+    ctx.ob("C11.R5", f"{RT}::get_thread_bindings::no answer bypasses the live frame walk", RT, gtb.lineno, ok,
+           "" if ok else "a return of get_thread_bindings is reachable without walking the frames: a stored snapshot is handed out, which misses a set! performed after it was taken, so work conveyed later runs with stale bindings")
 
 
 _PUSH_FIXED = '''    pushed: list[Var] = []
